@@ -463,10 +463,57 @@ func genLocks(pkgs map[string]*pkg) {
 			}
 		}
 	}
-	emit("(* lock regions: package, function, mutex, read lock?, released by defer?, every syntactic path")
-	emit("   from the lock to a return / the end of the function releases it?, calls made while held *)")
+	// every call made by every function (callee as written), for reasoning about helpers that
+	// are only called with a lock held and about who calls the ring's producer / consumer methods
+	emit("(* calls: package, function, callees as written in the source *)")
 	emit("Local Open Scope string_scope.")
 	emit("Local Open Scope list_scope.")
+	emit("Definition func_calls : list (string * string * list string) := [")
+	var fcl []string
+	for _, pn := range names {
+		pk := pkgs[pn]
+		var files []string
+		for f := range pk.files {
+			files = append(files, f)
+		}
+		sort.Strings(files)
+		for _, fnm := range files {
+			for _, d := range pk.files[fnm].Decls {
+				fd, ok := d.(*ast.FuncDecl)
+				if !ok || fd.Body == nil {
+					continue
+				}
+				name := fd.Name.Name
+				if fd.Recv != nil && len(fd.Recv.List) == 1 {
+					t := fd.Recv.List[0].Type
+					if st, ok := t.(*ast.StarExpr); ok {
+						t = st.X
+					}
+					if id, ok := t.(*ast.Ident); ok {
+						name = id.Name + "." + name
+					}
+				}
+				seen := map[string]bool{}
+				var cs []string
+				ast.Inspect(fd.Body, func(x ast.Node) bool {
+					if call, ok := x.(*ast.CallExpr); ok {
+						c := src(call.Fun)
+						if !seen[c] && c != "vpoint" && c != "verifStopDone" && !strings.ContainsAny(c, "\n{") {
+							seen[c] = true
+							cs = append(cs, coqString(c))
+						}
+					}
+					return true
+				})
+				fcl = append(fcl, fmt.Sprintf("  (%s, %s, [%s])", coqString(pn), coqString(name), strings.Join(cs, "; ")))
+			}
+		}
+	}
+	emit("%s", strings.Join(fcl, ";\n"))
+	emit("].")
+	emit("")
+	emit("(* lock regions: package, function, mutex, read lock?, released by defer?, every syntactic path")
+	emit("   from the lock to a return / the end of the function releases it?, calls made while held *)")
 	emit("Record lock_region := mkLR { lr_pkg : string; lr_func : string; lr_mutex : string; lr_read : bool;")
 	emit("  lr_defer : bool; lr_balanced : bool; lr_calls : list string }.")
 	emit("Definition lock_regions : list lock_region := [")
